@@ -1,7 +1,7 @@
 (* C18 - p-box queries (alpha-cut, cdf, discretisation, prediction interval) match the bounds.
    The grid facts (length = steps, strictly increasing) are proved for the constants translated from params.py. *)
 From Coq Require Import Reals Lra Lia List ZArith.
-From PUN Require Import Base.Num Model.Pbox Gen.GenParams Proofs.ListR Proofs.PboxWF Proofs.Query.
+From PUN Require Import Base.Num Model.Pbox Gen.GenParams Proofs.ListR Proofs.PboxWF Proofs.Query Proofs.Condense.
 Import ListNotations.
 Open Scope R_scope.
 
@@ -60,6 +60,23 @@ Theorem C18_narrowest_monotone_partial (p : list R * list R) a1 a2 : WF steps p 
                           /\ lo2 <= lo1 /\ hi1 <= hi2.
 Proof. intros; eapply (pi_narrowest_mono_partial steps plo phi); eauto using C18_grid_length, C18_grid_increasing, steps_pos. Qed.
 
+(* condensation to fewer steps contains the original p-box (n >= 3: n - 1 >= 2 outer intervals; condensation(2) raises, finding O27).
+   The theorem needs the configured constants: the probability cut off below p_lboundary and above p_hboundary is at most
+   half a grid step, so the stacked equal-weight levels i/(n-1) and the outer levels linspace(p_lo, p_hi, n) select focal
+   intervals that bracket every grid level. *)
+Lemma plo_val : plo = 1 / 1000.
+Proof. unfold plo, p_lboundary, nofdec. cbn [ndiv nofZ RN T]. cbn [Z.of_nat Pos.of_succ_nat Pos.succ Z.pow Z.pow_pos Pos.iter Z.mul Pos.mul Pos.add]. reflexivity. Qed.
+Lemma phi_val : phi = 999 / 1000.
+Proof. unfold phi, p_hboundary, nofdec. cbn [ndiv nofZ RN T]. cbn [Z.of_nat Pos.of_succ_nat Pos.succ Z.pow Z.pow_pos Pos.iter Z.mul Pos.mul Pos.add]. reflexivity. Qed.
+Lemma steps_val : INR (steps - 1) = 199.
+Proof. unfold steps, GenParams.steps. rewrite INR_IZR_INZ. reflexivity. Qed.
+Theorem C18_condensation_contains (p : list R * list R) (n : nat) : WF steps p -> (3 <= n)%nat ->
+  exists c, pcondensation RN steps plo phi p n = Ok c /\ WF steps c /\ ple (fst c) (fst p) /\ ple (snd p) (snd c).
+Proof.
+  apply condensation_contains; rewrite ?steps_val, ?plo_val, ?phi_val; try lra.
+  unfold steps, GenParams.steps; lia.
+Qed.
+
 Print Assumptions C18_alpha_cut_nearest.
 Print Assumptions C18_alpha_cut_monotone.
 Print Assumptions C18_cdf_alpha_cut_inverse.
@@ -67,3 +84,4 @@ Print Assumptions C18_outer_contains_band.
 Print Assumptions C18_widest_contains_narrowest.
 Print Assumptions C18_widest_monotone.
 Print Assumptions C18_narrowest_monotone_partial.
+Print Assumptions C18_condensation_contains.
